@@ -191,6 +191,14 @@ def main():
         with open(args.replay) as f:
             rp = json.load(f)
         w = World(rp["property"])
+        # history of the interpreter: cases executed (and discarded) before the judged one
+        prior = list(rp.get("prior_cases") or [])
+        hist = rp.get("prior_runs")
+        if hist:
+            for j in hist["js"]:
+                prior.append(json.loads(json.dumps(w.prop.gen(random.Random(H(hist["wseed"], j)), hist["tier"]))))
+        for pc in prior:
+            w.execute(pc)
         r = w.execute(rp["case"])
         report["replay"] = {"status": r["status"], "check_id": r.get("check_id"), "detail": r.get("detail"),
                             "sig": r.get("sig"), "digest": r["digest"], "trace": r.get("trace")}
